@@ -405,7 +405,10 @@ impl Suite for RequestSuite {
         match &c.seg {
             Seg::AllCuts { max_k } => {
                 let mut count = 0u64;
-                let r = for_all_cuts(stream.len(), *max_k as usize, |cuts| {
+                // every 3-cut only for streams of one or two records (about 50 000 segmentations);
+                // longer streams get every 1- and 2-cut (the third cut cost 45 minutes per run)
+                let max_k = if n > 2 { (*max_k).min(2) } else { *max_k };
+                let r = for_all_cuts(stream.len(), max_k as usize, |cuts| {
                     count += 1;
                     if count % 4096 == 0 {
                         // a long enumeration, not a spin: each decode call still has the full budget
